@@ -42,10 +42,16 @@ def gen_present(g):
     lens = [g.randint(warmup + 1, warmup + 10) for _ in range(K)]
     if g.chance(0.25):
         lens = [lens[0]] * K
-    seqs = [{"X": g.dymat(L, d, a=3, k=16), "Y": g.dymat(L, o, a=2, k=8)} for L in lens]
+    dtype = g.choice(["float64", "float64", "float64", "uint8", "int8", "float32"])
+    if dtype in ("uint8", "int8"):
+        # counts: every product and partial sum overflows a narrow integer type unless the data is promoted first
+        lo, hi = (0, 200) if dtype == "uint8" else (-100, 100)
+        seqs = [{"X": [[float(g.randint(lo, hi)) for _ in range(d)] for _ in range(L)], "Y": g.dymat(L, o, a=2, k=8)} for L in lens]
+    else:
+        seqs = [{"X": g.dymat(L, d, a=3, k=16), "Y": g.dymat(L, o, a=2, k=8)} for L in lens]
     # make sure the regressors are not all zero
-    seqs[0]["X"][-1] = [1.0 + 0.125 * i for i in range(d)]
-    return {"kind": "present", "d": d, "o": o, "bias": g.chance(0.7), "ridge": g.choice([1.0, 0.5, 0.125, 0.0078125]),
+    seqs[0]["X"][-1] = [1.0 + (0.125 * i if dtype.startswith("float") else i) for i in range(d)]
+    return {"kind": "present", "d": d, "o": o, "bias": g.chance(0.6), "ridge": g.choice([1.0, 0.5, 0.125, 0.0078125]), "dtype": dtype,
             "warmup": warmup, "seqs": seqs, "pseed": g.randint(0, 10 ** 6)}
 
 
@@ -54,7 +60,7 @@ def fit_variants(c):
     import random
     from reservoirpy.nodes import Ridge
     r = random.Random(c["pseed"])
-    Xs = [np.array(s["X"], dtype=float).reshape(len(s["X"]), c["d"]) for s in c["seqs"]]
+    Xs = [np.array(s["X"], dtype=float).reshape(len(s["X"]), c["d"]).astype(c.get("dtype", "float64")) for s in c["seqs"]]
     Ys = [np.array(s["Y"], dtype=float).reshape(len(s["Y"]), c["o"]) for s in c["seqs"]]
     w = c["warmup"]
 
@@ -91,6 +97,7 @@ def fit_variants(c):
         n = node()
         bad = r.randint(1, len(Xs) - 1)
         Xbad = [x if i != bad else np.hstack([x, x[:, :1]]) for i, x in enumerate(Xs)]
+        Xbad = [np.asarray(x) for x in Xbad]
         try:
             n.fit(Xbad, Ys, warmup=w)
             out["after_failed_fit"] = None       # a malformed sequence must be rejected
@@ -119,7 +126,7 @@ def fit_variants(c):
 def check_present(ctx, c):
     ob = "presentations"
     r = common.exc_class(fit_variants, c)
-    ctx.stat(f"present nseq={len(c['seqs'])} warmup={c['warmup']} bias={c['bias']}")
+    ctx.stat(f"present nseq={len(c['seqs'])} warmup={c['warmup']} bias={c['bias']} dtype={c.get('dtype', 'float64')}")
     if r[0] != "ok":
         return ob, [("oracle", f"a presentation of the dataset raised {r[1]}")]
     sols = r[1]
@@ -247,6 +254,7 @@ def gen_esn(g, heavy):
     backends = [None, "sequential", "threading", "threading", "multiprocessing"] + (["loky"] if heavy else [])
     return {"kind": "esn", "units": g.randint(5, 9), "K": K, "lens": [g.randint(8, 20) for _ in range(K)],
             "workers": g.choice([2, 3, -1, -2, -3, 1]), "backend": g.choice(backends), "feedback": g.chance(0.3),
+            "noise": g.choice([0.0, 0.0, 0.05]),
             "warmup": g.choice([0, 2, 3]), "seed": g.randint(0, 10 ** 6), "dseed": g.randint(0, 10 ** 6)}
 
 
@@ -262,7 +270,10 @@ def run_esn(c):
     Xs, Ys = esn_data(c)
 
     def mk(workers, backend):
-        return ESN(units=c["units"], sr=0.9, lr=0.5, ridge=1e-3, seed=c["seed"], feedback=c["feedback"], workers=workers, backend=backend)
+        # (with noise: every sequence is run on its own copy of the seeded ESN, so the draws of a sequence do not depend
+        # on which sequences were run before it, by which worker)
+        return ESN(units=c["units"], sr=0.9, lr=0.5, ridge=1e-3, seed=c["seed"], feedback=c["feedback"], workers=workers, backend=backend,
+                   noise_rc=c.get("noise", 0.0), noise_in=c.get("noise", 0.0))
     ref = mk(1, "sequential")
     ref.fit(Xs, Ys, warmup=c["warmup"])
     Wref = np.vstack([ref.readout.bias, ref.readout.Wout])
@@ -276,7 +287,7 @@ def run_esn(c):
     # independent reference (no feedback): every sequence run from the zero state through a copy of the
     # reservoir, then a plain Ridge fitted on those states with the same warm-up
     Wind = None
-    if not c["feedback"]:
+    if not c["feedback"] and not c.get("noise"):
         import copy as _copy
         from reservoirpy.nodes import Ridge
         states = []
@@ -296,7 +307,7 @@ def run_esn(c):
 
 def check_esn(ctx, c):
     ob = f"esn/{c['backend']}"
-    ctx.stat(f"esn workers={c['workers']} backend={c['backend']}")
+    ctx.stat(f"esn workers={c['workers']} backend={c['backend']} noise={c.get('noise', 0.0)}")
     r = common.exc_class(run_esn, c)
     if r[0] != "ok":
         return ob, [("oracle", f"ESN.fit / run with workers={c['workers']} backend={c['backend']} raised {r[1]}")]
